@@ -1,14 +1,15 @@
 --------------------------------- MODULE APA_Writers ---------------------------------
 (* C15, UNBOUNDED histories: typed (Apalache) transcription of MC_Writers + Writers WITHOUT the step       *)
 (* counter (`steps`, MaxSteps): any number of write calls, in any interleaving with the construction of    *)
-(* up to MaxWriters writers (the universe: MaxWriters = 3, Precisions = {2, 6}, Paths = {"a", "b"}).        *)
+(* up to MaxWriters writers (the universe: MaxWriters = 3, Precisions = {2, 6}, Paths = {"a", "b"}, a scenario  *)
+(* of 1..MaxLanelets = 2 lanelets).                                                                        *)
 (* `act` is kept (PropOwnInputs reads it).  Obligations as in APA_ScenarioStore.tla; deviation constants   *)
-(* are chosen by --cinit (CInit: all FALSE; CInitDev1..3: exactly one TRUE).                               *)
+(* are chosen by --cinit (CInit: all FALSE; CInitDev1..4: exactly one TRUE).                               *)
 EXTENDS Integers, Sequences, FiniteSets, Apalache
 
 (*
   @typeAlias: wr = {fmt: Str, d: Int};
-  @typeAlias: content = {fmt: Str, digits: Int, copies: Int, pp: Int};
+  @typeAlias: content = {fmt: Str, digits: Int, copies: Int, pp: Int, nl: Int};
   @typeAlias: tr = {n: Int, pp: Int};
   @typeAlias: act = {op: Str, w: Int, path: Str, mode: Str, kind: Str, fmt: Str, d: Int};
 *)
@@ -20,17 +21,21 @@ CONSTANTS
     \* @type: Bool;
     DEV_AccumulatingRoot,
     \* @type: Bool;
-    DEV_NoTruncate
+    DEV_NoTruncate,
+    \* @type: Bool;
+    DEV_NetworkCached
 
-Dev(a, b, c) == DEV_GlobalPrecision = a /\ DEV_AccumulatingRoot = b /\ DEV_NoTruncate = c
-CInit     == Dev(FALSE, FALSE, FALSE)
-CInitDev1 == Dev(TRUE, FALSE, FALSE)
-CInitDev2 == Dev(FALSE, TRUE, FALSE)
-CInitDev3 == Dev(FALSE, FALSE, TRUE)
+Dev(a, b, c, d) == DEV_GlobalPrecision = a /\ DEV_AccumulatingRoot = b /\ DEV_NoTruncate = c /\ DEV_NetworkCached = d
+CInit     == Dev(FALSE, FALSE, FALSE, FALSE)
+CInitDev1 == Dev(TRUE, FALSE, FALSE, FALSE)
+CInitDev2 == Dev(FALSE, TRUE, FALSE, FALSE)
+CInitDev3 == Dev(FALSE, FALSE, TRUE, FALSE)
+CInitDev4 == Dev(FALSE, FALSE, FALSE, TRUE)
 
 MaxWriters == 3
 Precisions == {2, 6}
 Paths      == {"a", "b"}
+MaxLanelets == 2                 \* EditScenario of MC_Writers: nlan < 2
 
 VARIABLES
     \* @type: Seq($wr);
@@ -42,37 +47,42 @@ VARIABLES
     \* @type: Seq($tr);
     tree,
     \* @type: $act;
-    act
-vars == <<writers, files, gprec, tree, act>>
+    act,
+    \* @type: Int;
+    nlan,
+    \* @type: Seq(Int);
+    wnet
+vars == <<writers, files, gprec, tree, act, nlan, wnet>>
 
 (* ---- Writers.tla ------------------------------------------------------------------------------------ *)
 Formats == {"xml", "pb"}
 Kinds   == {"full", "scenario"}
 Modes   == {"always", "skip"}
-\* @type: ($wr, Str) => $content;
-F(w, kind) == [fmt |-> w.fmt, digits |-> IF w.fmt = "xml" THEN w.d ELSE 0, copies |-> 1,
-               pp |-> IF kind = "full" THEN 1 ELSE 0]
+\* @type: ($wr, Str, Int) => $content;
+F(w, kind, nl) == [fmt |-> w.fmt, digits |-> IF w.fmt = "xml" THEN w.d ELSE 0, copies |-> 1,
+                   pp |-> IF kind = "full" THEN 1 ELSE 0, nl |-> nl]
 \* @type: (Str -> $content, Str, Str) => Bool;
 Skipped(fs, path, mode) == mode = "skip" /\ path \in DOMAIN fs
 \* @type: $content;
-NoFile == [fmt |-> "none", digits |-> 0, copies |-> 0, pp |-> 0]
+NoFile == [fmt |-> "none", digits |-> 0, copies |-> 0, pp |-> 0, nl |-> 0]
 
 (* ---- MC_Writers.tla --------------------------------------------------------------------------------- *)
 W == 1..MaxWriters
 \* @type: (Str, Int, Str, Str, Str, Str, Int) => $act;
 A(op, w, path, mode, kind, fmt, d) == [op |-> op, w |-> w, path |-> path, mode |-> mode, kind |-> kind, fmt |-> fmt, d |-> d]
 Init == /\ writers = <<>> /\ files = [p \in {} |-> NoFile] /\ gprec = 4 /\ tree = <<>>
+        /\ nlan = 1 /\ wnet = <<>>
         /\ act = A("init", 0, "", "", "", "", 0)
 
 \* @type: $content => Int;
-Size(c) == (IF c.fmt = "xml" THEN 20 + c.digits ELSE IF c.fmt = "pb" THEN 10 ELSE 1000) + 5 * c.pp + 40 * c.copies
+Size(c) == (IF c.fmt = "xml" THEN 20 + c.digits ELSE IF c.fmt = "pb" THEN 10 ELSE 1000) + 5 * c.pp + 40 * c.copies * c.nl
 \* @type: $content;
-Garbled == [fmt |-> "garbled", digits |-> 0, copies |-> 0, pp |-> 0]
+Garbled == [fmt |-> "garbled", digits |-> 0, copies |-> 0, pp |-> 0, nl |-> 0]
 
 New(fmt, d) ==
     /\ Len(writers) < MaxWriters
     /\ writers' = Append(writers, [fmt |-> fmt, d |-> d]) /\ tree' = Append(tree, [n |-> 0, pp |-> 0])
-    /\ gprec' = d /\ UNCHANGED files
+    /\ gprec' = d /\ UNCHANGED <<files, nlan>> /\ wnet' = Append(wnet, 0)
     /\ act' = A("new", Len(writers) + 1, "", "", "", fmt, d)
 
 Write(w, path, mode, kind) ==
@@ -82,46 +92,58 @@ Write(w, path, mode, kind) ==
               ELSE [n |-> 1, pp |-> IF kind = "full" THEN 1 ELSE 0]
         content == [fmt |-> wr.fmt,
                     digits |-> IF wr.fmt = "xml" THEN (IF DEV_GlobalPrecision THEN gprec ELSE wr.d) ELSE 0,
-                    copies |-> t1.n, pp |-> t1.pp]
+                    copies |-> t1.n, pp |-> t1.pp,
+                    nl |-> IF DEV_NetworkCached /\ wnet[w] # 0 THEN wnet[w] ELSE nlan]
         onDisk == IF DEV_NoTruncate /\ path \in DOMAIN files /\ Size(files[path]) > Size(content)
                   THEN Garbled ELSE content
     IN /\ w \in 1..Len(writers)
-       /\ IF Skipped(files, path, mode) THEN UNCHANGED <<files, tree>>
+       /\ IF Skipped(files, path, mode) THEN UNCHANGED <<files, tree, wnet>>
           ELSE /\ files' = [p \in DOMAIN files \cup {path} |-> IF p = path THEN onDisk ELSE files[p]]
                /\ tree' = [tree EXCEPT ![w] = t1]
-       /\ UNCHANGED <<writers, gprec>>
+               /\ wnet' = [wnet EXCEPT ![w] = IF @ = 0 THEN nlan ELSE @]
+       /\ UNCHANGED <<writers, gprec, nlan>>
        /\ act' = A("write", w, path, mode, kind, wr.fmt, wr.d)
+
+\* the user edits the scenario the writers reference (a lanelet is added)
+EditScenario == /\ nlan < MaxLanelets /\ nlan' = nlan + 1 /\ UNCHANGED <<writers, files, gprec, tree, wnet>>
+                /\ act' = A("edit", 0, "", "", "", "", 0)
 
 \* NO step counter
 Next == \/ \E fmt \in Formats, d \in Precisions : New(fmt, d)
+        \/ EditScenario
         \/ \E w \in W, p \in Paths, m \in Modes, k \in Kinds : Write(w, p, m, k)
 
 (* ---- the contract ----------------------------------------------------------------------------------- *)
 ActOwnInputs == act'.op = "write" =>
                     IF Skipped(files, act'.path, act'.mode) THEN files' = files
-                    ELSE files'[act'.path] = F(writers[act'.w], act'.kind)
+                    ELSE files'[act'.path] = F(writers[act'.w], act'.kind, nlan)
 InvFiles == \A p \in DOMAIN files : files[p].copies = 1 /\ files[p].fmt \in Formats
 PropInv == InvFiles
 PropAct == ActOwnInputs
 
 (* ---- the inductive invariant ------------------------------------------------------------------------ *)
 TypeOK ==
-    /\ Len(writers) <= MaxWriters /\ Len(tree) = Len(writers)
+    /\ Len(writers) <= MaxWriters /\ Len(tree) = Len(writers) /\ Len(wnet) = Len(writers)
+    /\ nlan \in 1..MaxLanelets
     /\ \A i \in DOMAIN writers : writers[i].fmt \in Formats /\ writers[i].d \in Precisions
     /\ DOMAIN files \subseteq Paths
     /\ gprec \in Precisions \cup {4}
-    /\ act.op \in {"init", "new", "write"} /\ act.w \in 0..MaxWriters
+    /\ act.op \in {"init", "new", "write", "edit"} /\ act.w \in 0..MaxWriters
 IndInv ==
     /\ TypeOK
     \* the process-global precision is the precision of the writer constructed last
     /\ gprec = (IF Len(writers) = 0 THEN 4 ELSE writers[Len(writers)].d)
     \* element tree of a writer: empty, or exactly the elements of its last write (never accumulated)
     /\ \A i \in DOMAIN tree : tree[i].n \in {0, 1} /\ tree[i].pp \in {0, 1} /\ tree[i].pp <= tree[i].n
-    \* files and writers: every file on disk is what ONE constructed writer produces from its own inputs
-    /\ \A p \in DOMAIN files : \E i \in DOMAIN writers, k \in Kinds : files[p] = F(writers[i], k)
+    \* network size a writer saw at its first write: none yet, or a size the scenario had then (the scenario only grows)
+    /\ \A i \in DOMAIN wnet : wnet[i] \in 0..nlan
+    \* files and writers: every file on disk is what ONE constructed writer produces from its own inputs (the writer's
+    \* format / precision, the kind of the call, the scenario as it was at the time of that write)
+    /\ \A p \in DOMAIN files : \E i \in DOMAIN writers, k \in Kinds, nl \in 1..MaxLanelets :
+            nl <= nlan /\ files[p] = F(writers[i], k, nl)
 
 IndInit ==
-    /\ writers = Gen(MaxWriters) /\ tree = Gen(MaxWriters)
+    /\ writers = Gen(MaxWriters) /\ tree = Gen(MaxWriters) /\ wnet = Gen(MaxWriters) /\ nlan = Gen(1)
     /\ files = Gen(2)
     /\ gprec = Gen(1)
     /\ act = Gen(1)
